@@ -141,6 +141,20 @@ EXTRA3 = {
     "C20": " The ids of every reply, also to the raw (malformed) part of an input; conversations ended by COM_QUIT from a client that then waits: no read after the QUIT.",
 }
 
+# added after round 17 (DESIGN.md 11.1 and 2.8)
+EXTRA4 = {
+    "C03": " Nine spellings of USE (blanks, newlines, semicolons behind the name).",
+    "C04": " In the ordinary conversations every reassembled message must decode as a message of the protocol (two messages under one header still 'frame').",
+    "C05": " Real pauses of the backend between rows.",
+    "C08": " One FLOAT/DOUBLE parameter in eight is an infinity or a quiet NaN.",
+    "C10": " A sixth of the executions of live statements are answered with an error, among them the errors about prepared statements; the id stays usable.",
+    "C12": " C02's near-miss text pool (comments terminated and not, disguised built-ins) in lock-step.",
+    "C13": " Errors behind replies of exactly 253..259 and 509..514 packets.",
+    "C15": " Rows [NULL, v] with columns of different width and opposite signedness: the cell behind the NULL is accepted and exact.",
+    "C18": " The plaintext twin logs in with the handshake response the TLS client sent; half of the varied responses name a default schema.",
+    "C20": " C02's near-miss text pool as QUERY / PREPARE / INIT_DB; 'never loops forever' is decided as bounded progress: a case without any transport operation or callback for 90 s is run again alone with a 240 s limit, and stuck again is a violation.",
+}
+
 ALL = ["C%02d" % i for i in range(1, 21)]
 
 
@@ -156,7 +170,8 @@ def main():
         text += EXTRA.get(pid, "")
         text += EXTRA2.get(pid, "")
         text += EXTRA3.get(pid, "")
-        text += " Before a sixth of the cases one to three predecessor connections run on the same thread and end badly (write error inside a reply, backend error inside a row, abandoned long data, ...): what they leave behind must not matter; during a sixth of the cases another connection is served on a second thread at a chosen read of the monitored one. The check runs the workload three times on three builds at three seeds: overflow/debug-assertion checked, release, and the library built without its tls cargo feature" + (" (that build decides one clause of this property only: a TLS request is refused before after_authentication)." if pid == "C18" else ".")
+        text += EXTRA4.get(pid, "")
+        text += " Before a sixth of the cases one to three predecessor connections run on the same thread and end badly (write error inside a reply, backend error inside a row, abandoned long data, ...): what they leave behind must not matter (one varied case in 120 runs behind the heavy one: a 16 MiB text row cut by a write error); during a sixth of the cases another connection is served on a second thread at a chosen read of the monitored one. The check runs the workload three times on three builds at three seeds: overflow/debug-assertion checked, release, and the library built without its tls cargo feature" + (" (that build decides one clause of this property only: a TLS request is refused before after_authentication)." if pid == "C18" else ".")
         checks.append({
             "property_id": pid,
             "quick_cmd": "./check %s quick" % pid,
